@@ -82,7 +82,7 @@ Proof.
   assert (V : Qred (vtime s + (now - last_time s) / inject_Z ws) ==
               vtime s + (now - last_time s) / ((0 # 1) + inject_Z ws))
     by (rewrite Qred_correct, Qplus_0_l; reflexivity).
-  destruct (Z.eqb n 0) eqn:En.
+  rewrite ?(Z.eqb_sym 0 n). destruct (Z.eqb n 0) eqn:En.
   - apply Z.eqb_eq in En. rewrite (Hm En). pose proof (length_zremove c (active s) Hnd (Hm En)) as L. rewrite L.
     destruct (zremove c (active s)) as [|x l] eqn:Er; cbn [length];
       [ change (Z.of_nat 1 + -1 =? 0)%Z with true
